@@ -92,6 +92,12 @@ fn alpha_beta_search(
         return 0;
     }
 
+    // the per-ply search tables (pv, killer moves, current line) hold MAX_DEPTH entries, a line can get
+    // this long through check extensions and the ply offset of the null move: stop extending it there
+    if ply_from_root >= MAX_DEPTH as i32 {
+        return quiesce(board, alpha, beta, search_info, zobrist_hasher);
+    }
+
     draw_table.add_board_to_draw_table(board);
 
     if depth == 0 {
